@@ -239,7 +239,7 @@ func checkC15(c *Ctx) {
 
 	// ---- C15.9 a length-delimited field is read whole: a reader that is parsed with fixed-size reads (binary.Read,
 	// io.ReadFull) is never asked for a field with one plain Read, which may return fewer bytes than the field has
-	r.Rule("C15.9", "length-delimited fields are read with a filling read, never a single Read", 5)
+	r.Rule("C15.9", "length-delimited fields are read with a filling read, never a single Read", 3)
 	{
 		unwrap := func(v ssa.Value) ssa.Value {
 			for {
